@@ -136,6 +136,7 @@ def run(prop, tier, seed, replay=None):
         scen = gen_behaviours(v, tier, seed)
         for i, sc in enumerate(scen):
             sc["id"] = i
+            sc["geom"] = i % 2
     if replay and scen[0].get("kind") in ("advert", "pex"):
         raise Internal("replay of advert/pex cases: run `harness/bin/vh c11x` on the scenario")
     obs, applied, nreq = run_replays(v, prop, scen)
